@@ -376,6 +376,89 @@ def _deep_clone(e):
 
 
 _EXPANDED: Dict[int, ast.AST] = {}
+_LOOPFORM: Dict[int, FunctionInfo] = {}
+
+
+def loop_form(fn: FunctionInfo) -> FunctionInfo:
+    """A private copy of the function (same qualified name, for reports) in which a container built by a
+    comprehension is built by the loop it abbreviates:
+        X = {E for T in IT if C}      ->  X = set(); for T in IT: if C: X.add(E)
+        X = [E for ..]                ->  X = [];    ..  X.append(E)
+        X = {K: V for ..}             ->  X = {};    ..  X[K] = V
+        X = {..comp..} | {..comp..}   ->  X = {};    one loop after the other (dict merge, later wins)
+    For the rules that recognise an algorithm by the loops that fill its tables.  Parent links are set on
+    the copy; the control-flow graph of the original must not be consulted through the copy."""
+    key = id(fn.node)
+    if key in _LOOPFORM:
+        return _LOOPFORM[key]
+    node = _deep_clone(fn.node)
+
+    def comps_of(v):
+        if isinstance(v, (ast.SetComp, ast.ListComp, ast.DictComp)):
+            return [v]
+        if isinstance(v, ast.BinOp) and isinstance(v.op, ast.BitOr):
+            l_, r_ = comps_of(v.left), comps_of(v.right)
+            if l_ and r_ and all(isinstance(c, ast.DictComp) for c in l_ + r_):
+                return l_ + r_
+        return []
+
+    def loops_for(name: str, c) -> ast.stmt:
+        if isinstance(c, ast.DictComp):
+            leaf: ast.stmt = ast.Assign(targets=[ast.Subscript(value=ast.Name(id=name, ctx=ast.Load()), slice=c.key, ctx=ast.Store())], value=c.value, lineno=c.lineno)
+        else:
+            leaf = ast.Expr(value=ast.Call(func=ast.Attribute(value=ast.Name(id=name, ctx=ast.Load()), attr="add" if isinstance(c, ast.SetComp) else "append", ctx=ast.Load()), args=[c.elt], keywords=[]))
+        body = [leaf]
+        for g in reversed(c.generators):
+            if g.ifs:
+                body = [ast.If(test=g.ifs[0] if len(g.ifs) == 1 else ast.BoolOp(op=ast.And(), values=list(g.ifs)), body=body, orelse=[])]
+            tg = _deep_clone(g.target)
+            for n_ in ast.walk(tg):
+                if hasattr(n_, "ctx"):
+                    n_.ctx = ast.Store()
+            body = [ast.For(target=tg, iter=g.iter, body=body, orelse=[])]
+        return body[0]
+
+    dict_names = {st.targets[0].id for st in ast.walk(node) if isinstance(st, ast.Assign) and len(st.targets) == 1 and isinstance(st.targets[0], ast.Name) and (isinstance(st.value, (ast.Dict, ast.DictComp)) or comps_of(st.value) and isinstance(comps_of(st.value)[0], ast.DictComp))}
+    for holder in list(ast.walk(node)):
+        for fld in ("body", "orelse", "finalbody"):
+            seq = getattr(holder, fld, None)
+            if not (isinstance(seq, list) and seq and isinstance(seq[0], ast.stmt)):
+                continue
+            i = 0
+            while i < len(seq):
+                st = seq[i]
+                # D.update((k, v) for ..) on a local dict   ->   for ..: D[k] = v
+                if isinstance(st, ast.Expr) and isinstance(st.value, ast.Call) and isinstance(st.value.func, ast.Attribute) and st.value.func.attr == "update" and isinstance(st.value.func.value, ast.Name) and st.value.func.value.id in dict_names and len(st.value.args) == 1 and not st.value.keywords:
+                    g0 = st.value.args[0]
+                    if isinstance(g0, (ast.GeneratorExp, ast.ListComp)) and isinstance(g0.elt, (ast.Tuple, ast.List)) and len(g0.elt.elts) == 2 and not any(g.is_async for g in g0.generators):
+                        dc = ast.DictComp(key=g0.elt.elts[0], value=g0.elt.elts[1], generators=g0.generators)
+                        ast.copy_location(dc, g0)
+                        new1 = loops_for(st.value.func.value.id, dc)
+                        ast.copy_location(new1, st)
+                        ast.fix_missing_locations(new1)
+                        seq[i] = new1
+                        i += 1
+                        continue
+                if isinstance(st, ast.Assign) and len(st.targets) == 1 and isinstance(st.targets[0], ast.Name):
+                    cs = comps_of(st.value)
+                    nm = st.targets[0].id
+                    if cs and not any(g.is_async for c in cs for g in c.generators) and not any(isinstance(x, ast.Name) and x.id == nm for c in cs for x in ast.walk(c)):
+                        kind = cs[0]
+                        init = ast.Call(func=ast.Name(id="set", ctx=ast.Load()), args=[], keywords=[]) if isinstance(kind, ast.SetComp) else (ast.List(elts=[], ctx=ast.Load()) if isinstance(kind, ast.ListComp) else ast.Dict(keys=[], values=[]))
+                        new = [ast.Assign(targets=[ast.Name(id=nm, ctx=ast.Store())], value=init, lineno=st.lineno)] + [loops_for(nm, c) for c in cs]
+                        for x in new:
+                            ast.copy_location(x, st)
+                            ast.fix_missing_locations(x)
+                        seq[i:i + 1] = new
+                        i += len(new)
+                        continue
+                i += 1
+    A.set_parents(node)
+    import dataclasses as _dc
+
+    out = _dc.replace(fn, node=node)
+    _LOOPFORM[key] = out
+    return out
 
 
 def expanded_function(fn: FunctionInfo) -> ast.AST:
